@@ -559,6 +559,61 @@ func checkC04(c *core.Ctx) {
 		}
 		judgeParse(c, g, "lowbyte", i, dedup(mine), true, "lowbyte")
 	})
+	// the tree written with -o onto the file the text came from (same path, another spelling of it, a symbolic
+	// link, a hard link, the file as standard input): the verdict and the tree are those of the text
+	c.Stream("inplace", c.N(80, 800), func(i int, r *rand.Rand) {
+		txt := []byte(randomChordText(r, 1+r.Intn(6), true))
+		if i%4 == 3 {
+			// a non-sentence: cut inside the last chord
+			txt = txt[:len(txt)-1-r.Intn(min(3, len(txt)-1))]
+		}
+		want, tr := g.Accept(txt)
+		dir := c.Scratch.Path("inplace")
+		os.MkdirAll(filepath.Join(dir, "sub"), 0o755)
+		song := filepath.Join(dir, "song.txt")
+		os.WriteFile(song, txt, 0o644)
+		out := song
+		var res *runner.Result
+		kind := []string{"same-path", "other-spelling", "symlink", "hardlink", "stdin-redirect"}[i%5]
+		switch kind {
+		case "other-spelling":
+			out = filepath.Join(dir, "sub") + "/../song.txt"
+		case "symlink":
+			out = filepath.Join(dir, "link.txt")
+			os.Symlink(song, out)
+		case "hardlink":
+			out = filepath.Join(dir, "hard.txt")
+			os.Link(song, out)
+		}
+		if kind == "stdin-redirect" {
+			res = c.Crd.Run(runner.Opt{Redirect: "<" + song}, "text", "parse", "-o", song)
+		} else {
+			res = run(c, nil, "text", "parse", song, "-o", out)
+		}
+		c.Eval(1)
+		if res.WallKill || res.StartErr != nil {
+			return
+		}
+		class := "inplace:" + kind
+		if a := abnormal(res); a != "" {
+			c.Violate("inplace", i, class+":abnormal", fmt.Sprintf("crd text parse FILE -o (%s) on %s %s", kind, qs(txt), a), obs(res))
+			return
+		}
+		if res.OK() != want {
+			c.Violate("inplace", i, class+":accept", fmt.Sprintf("crd text parse with -o naming its own input (%s) accepts=%v, the grammar accepts=%v: %s", kind, res.OK(), want, qs(txt)), obs(res))
+			return
+		}
+		if want && utf8.Valid(txt) {
+			items, err := itemsFromParseYAML(readFileOrNil(song))
+			ref, ok := grammar.Tree(tr.Tokens)
+			if err != nil || (ok && mustJSON(items) != mustJSON(ref)) {
+				c.Violate("inplace", i, class+":tree", fmt.Sprintf("crd text parse with -o naming its own input (%s): the tree left in the file does not list what %s says (err=%v)", kind, qs(txt), err), obs(res))
+				return
+			}
+			c.Count("trees_compared", 1)
+		}
+		c.Nontrivial(fmt.Sprintf("inplace%d", i))
+	})
 	// texts far beyond any buffer size (1 MiB and more, mostly comments and blank lines, which are cheap to
 	// write but still have to be read): nothing behind the padding may be dropped or invented
 	hugeCases := c.N(2, 6)
